@@ -150,3 +150,31 @@ func env2(v *spec.V2, idx int) {
 	idx /= 5
 	v.M[spec.V2CDP] = int8(idx % 6)
 }
+
+// presencePatterns calls fn with one vector for every presence pattern of the optional metrics: bit i of the
+// pattern says whether optional metric i (E, RL, RC, CR ... MA) is written, with a defined value; the base
+// metrics and the version are seeded.  L is the level of the highest metric written.  (Drawing presence
+// independently per metric gives any one of the 16,384 patterns with probability 6e-5.)
+func presencePatterns(r *Run, reps int, fn func(w *W, v *spec.V3, L int, rng *rand.Rand)) {
+	nOpt := spec.N3 - spec.E
+	r.Parallel(1<<nOpt, 32, func(w *W, p int) {
+		rng := r.Rng(uint64(p) + 1<<45)
+		for rep := 0; rep < reps; rep++ {
+			v := newV3(rng.IntN(2), rng.IntN(nBase3))
+			L := spec.LBase
+			for i := 0; i < nOpt; i++ {
+				m := spec.E + i
+				if p>>i&1 == 1 {
+					v.M[m] = int8(1 + rng.IntN(len(spec.V3Metrics[m].Codes)-1))
+					if m >= spec.CR {
+						L = spec.LEnv
+					} else if L < spec.LTemp {
+						L = spec.LTemp
+					}
+				}
+			}
+			fn(w, &v, L, rng)
+			w.Count("optional_metric_presence_patterns")
+		}
+	})
+}
